@@ -161,7 +161,9 @@ PROVED = {
         "compile_parse input <> OPanic. THE LEXER NEVER SPINS, for every input: every state function on every cursor sends a token, or leaves fewer bytes in the "
         "reader, or moves to a state of lower rank (two rank tables, nine levels), so fewer than 9*(bytes left+1) state calls separate two tokens and the "
         "pump's budget is never used up; the only abnormal outcome of the model left is the parser's own loop budget (PBudget). That the parser loop ends "
-        "within it rests on the correspondence run only: partial. The fuel of the lexer's inner loops is never used up (more fuel, same result).",
+        "within it rests on the correspondence run only: partial. TOTAL WORK OF THE LEXER LINEAR, for every input: every state call, sending tokens or not, shrinks "
+        "the reader or moves down a rank of 46 levels indexed by state and first rune, so the final state is reached within 46*(bytes+1) calls with at most 4 "
+        "tokens each (tokens and tree nodes linear in the input). The fuel of the lexer's inner loops is never used up (more fuel, same result).",
  "C07": "the writer's line/column counter is the end position of the generated text; every source-map entry points at the place its fragment was written; "
         "character k of a fragment sits where walking k characters from the target leads; end to end for one-line fragments the template position maps to "
         "the generated position holding the same character (byte columns; UTF-16 after non-ASCII is F15).",
